@@ -360,6 +360,82 @@ func (g *gen) threadCall(t int) int {
 	return cancelAt + 5
 }
 
+// threadCallProg: a CallProgressive with a scripted sendProg (chunks, an error or the end of the
+// caller's context mid-way), the router answering with progressive results and a final reply.
+func (g *gen) threadCallProg(t int) int {
+	r := g.r
+	g.g++
+	c := g.g
+	name := fmt.Sprintf("c%d", c)
+	prog := r.Chance(1, 2)
+	var script []ScriptStep
+	at := t
+	cancelAt := -1
+	for i, n := 0, r.Intn(4); i < n; i++ {
+		d := hcommon.Pick(r, []int{0, 1, 3, 7})
+		switch x := r.Intn(10); {
+		case x < 6:
+			script = append(script, ScriptStep{D: d, K: "chunk"})
+			at += d
+		case x < 7:
+			script = append(script, ScriptStep{D: d, K: "final"})
+			at += d
+			i = n
+		case x < 8:
+			script = append(script, ScriptStep{D: d, K: "err"})
+			at += d
+			i = n
+			g.tag("sendprog-error")
+		default:
+			// sendProg waits for the caller's context, which is cancelled d+1 ms later
+			script = append(script, ScriptStep{K: "ctx"})
+			cancelAt = at + d + 1
+			at = cancelAt
+			i = n
+			g.tag("sendprog-ctx")
+		}
+	}
+	g.add(Stim{T: t, Stim: "api", G: c, Op: "callprog", Name: name, Prog: prog, Script: script})
+	g.tag("call-progressive")
+	cur := t + 1 + r.Intn(4)
+	if r.Chance(1, 2) {
+		g.tag("progressive")
+		for i, n := 0, 1+r.Intn(3); i < n; i++ {
+			g.router(cur, 50.0, reqOf(c), map[string]any{"progress": true}, []any{float64(g.marker())}, map[string]any{})
+			cur += r.Intn(3)
+		}
+	}
+	if cancelAt < 0 && r.Chance(1, 4) && !(prog && g.sc.Cfg.ProgDelay > 0) {
+		cancelAt = cur + r.Intn(6)
+	}
+	if cancelAt >= 0 {
+		if prog && g.sc.Cfg.ProgDelay > 0 {
+			// (guard F43, as in threadCall) no progress results pending when the context ends
+			g.sc.Cfg.ProgDelay = 0
+		}
+		g.add(Stim{T: cancelAt, Stim: "cancel", G: c, Kind: "canceled"})
+		g.tag("cancel")
+		if r.Chance(2, 3) {
+			g.router(cancelAt+1+r.Intn(4), 8.0, 48.0, reqOf(c), map[string]any{}, "wamp.error.canceled")
+		}
+		if cancelAt+5 > at {
+			at = cancelAt + 5
+		}
+		return at + 1
+	}
+	fin := cur + 1 + r.Intn(6)
+	switch x := r.Intn(10); {
+	case x < 6:
+		g.router(fin, 50.0, reqOf(c), map[string]any{}, []any{float64(g.marker())}, map[string]any{})
+	case x < 9:
+		g.router(fin, 8.0, 48.0, reqOf(c), map[string]any{}, fmt.Sprintf("wamp.error.m%d", g.marker()))
+	}
+	if fin > at {
+		at = fin
+	}
+	return at + 1
+}
+
 func (g *gen) threadRegister(t int) int {
 	r := g.r
 	g.g++
@@ -375,6 +451,11 @@ func (g *gen) threadRegister(t int) int {
 	case 2, 3:
 		b.WaitCtx = true
 		b.Delay = hcommon.Pick(r, []int{10, 30, 500})
+	}
+	if r.Chance(1, 3) {
+		// the handler calls SendProgress when it starts (refused unless the caller asked for progress)
+		b.Progress = 1 + r.Intn(2)
+		g.tag("send-progress")
 	}
 	if g.sc.Cfg.Behav == nil {
 		g.sc.Cfg.Behav = map[string]Behav{}
@@ -398,7 +479,7 @@ func (g *gen) threadRegister(t int) int {
 			det["timeout"] = float64(hcommon.Pick(r, []int{3, 8, 50}))
 			g.tag("inv-timeout")
 		}
-		if r.Chance(1, 4) {
+		if r.Chance(1, 4) || (b.Progress > 0 && r.Chance(1, 2)) {
 			det["receive_progress"] = true
 		}
 		if r.Chance(1, 5) || (g.prop == "C17" && r.Chance(1, 3)) {
@@ -521,7 +602,11 @@ func generate(seed int64, idx int, prop string) Scenario {
 		case x < 7 || g.lagging():
 			// (no invocation workers while slow event / progress handlers make the loop lag: what a
 			// burst of queued messages does to them is the scheduler's choice, step by step)
-			e = g.threadCall(t)
+			if r.Chance(1, 4) {
+				e = g.threadCallProg(t)
+			} else {
+				e = g.threadCall(t)
+			}
 		default:
 			e = g.threadRegister(t)
 		}
@@ -630,6 +715,44 @@ func (g *gen) guardCloseRace() {
 		}
 		for bad[st.T] {
 			st.T++
+		}
+	}
+	// (same finding, the sender goroutine of a CallProgressive: it watches neither the call's return
+	// nor Done and its next send after Close() panics) every sender is through before Close():
+	// scripts are cut short, a "ctx" step whose cancellation comes too late becomes "final"
+	closeT := -1
+	for _, st := range g.sc.Stims {
+		if st.Stim == "close" && (closeT < 0 || st.T < closeT) {
+			closeT = st.T
+		}
+	}
+	for i := range g.sc.Stims {
+		st := &g.sc.Stims[i]
+		if st.Stim != "api" || st.Op != "callprog" {
+			continue
+		}
+		at := st.T
+		for k := range st.Script {
+			step := &st.Script[k]
+			if step.K == "ctx" {
+				ct := -1
+				for _, o := range g.sc.Stims {
+					if o.Stim == "cancel" && o.G == st.G {
+						ct = o.T
+					}
+				}
+				if ct < 0 || ct+1 >= closeT {
+					step.K, step.D = "final", 0
+				} else {
+					at = ct
+				}
+			} else {
+				at += step.D
+			}
+			if at+1 >= closeT {
+				st.Script = st.Script[:k]
+				break
+			}
 		}
 	}
 }
